@@ -13,6 +13,7 @@ from __future__ import annotations
 
 import ast
 import re as _re
+import collections as _collections
 import builtins as _builtins
 
 from .peval import Evaluator, Model, Unsupported, RaisedInModel, ProgramRaised, ReturnValue, _Continue, _Break
@@ -146,6 +147,93 @@ class WeakRef(Model):
 
     def __hash__(self):
         return id(self.referent)
+
+
+class _GenCM:
+    """the context manager made by @contextlib.contextmanager from a generator function with ONE yield at the top level of its body or
+    of a try statement at the top level: __enter__ runs the statements before the yield, __exit__ the ones after it (the handlers /
+    finally clause of the enclosing try when the with-body raised)"""
+
+    def __init__(self, ev, callee, args, kwargs, node):
+        self.ev, self.callee, self.args, self.kwargs, self.node = ev, callee, args, kwargs, node
+        body = list(callee.node.body)
+        self.pre, self.try_node, self.try_pre, self.post_in_try, self.post = [], None, [], [], []
+        idx = None
+
+        def is_yield(st):
+            return isinstance(st, ast.Expr) and isinstance(st.value, ast.Yield)
+        for i, st in enumerate(body):
+            if is_yield(st):
+                idx, self.yield_value = i, st.value.value
+                break
+            if isinstance(st, ast.Try) and any(is_yield(x) for x in st.body):
+                j = next(k for k, x in enumerate(st.body) if is_yield(x))
+                idx, self.try_node, self.try_pre, self.post_in_try, self.yield_value = i, st, st.body[:j], st.body[j + 1:], st.body[j].value.value
+                break
+        if idx is None or any(isinstance(x, (ast.Yield, ast.YieldFrom)) for st in body[idx + 1:] + self.post_in_try for x in ast.walk(st)):
+            raise Unsupported("context manager %s: not a single top-level yield" % callee.qual)
+        self.pre, self.post = body[:idx], body[idx + 1:]
+        self.sub = None
+
+    def enter(self):
+        ev, callee = self.ev, self.callee
+        # bind the parameters exactly like a call would, then run the part before the yield in that frame
+        a = callee.node.args
+        names = [x.arg for x in a.posonlyargs + a.args]
+        env = {}
+        sub = ModelEval(ev.tree, callee, env, ev.hooks, ev.depth + 1, ev.shared)
+        if len(self.args) > len(names) and a.vararg is None:
+            raise Raised("TypeError", self.node, "%s() takes %d positional arguments" % (callee.name, len(names)))
+        for n_, d in zip(names[len(names) - len(a.defaults):], a.defaults):
+            env[n_] = sub.ev(d)
+        for x, d in zip(a.kwonlyargs, a.kw_defaults):
+            if d is not None:
+                env[x.arg] = sub.ev(d)
+        for n_, v in zip(names, self.args):
+            env[n_] = v
+        if a.vararg is not None:
+            env[a.vararg.arg] = tuple(self.args[len(names):])
+        extra = {}
+        for k, v in self.kwargs.items():
+            if k in names or k in [x.arg for x in a.kwonlyargs]:
+                env[k] = v
+            elif a.kwarg is not None:
+                extra[k] = v
+            else:
+                raise Raised("TypeError", self.node, "%s() got an unexpected keyword argument %r" % (callee.name, k))
+        if a.kwarg is not None:
+            env[a.kwarg.arg] = extra
+        for n_ in names:
+            if n_ not in env:
+                raise Raised("TypeError", self.node, "%s() missing argument %s" % (callee.name, n_))
+        self.sub = sub
+        sub.exec_block(self.pre)
+        sub.exec_block(self.try_pre)
+        return sub.ev(self.yield_value) if self.yield_value is not None else None
+
+    def exit(self, exc):
+        sub = self.sub
+        if self.try_node is None:
+            if exc is not None:
+                return False            # the exception is raised at the yield: nothing after it runs, nothing is swallowed
+            sub.exec_block(self.post)
+            return False
+        t = self.try_node
+        if exc is None:
+            rest = ast.Try(body=self.post_in_try or [ast.Pass()], handlers=t.handlers, orelse=t.orelse, finalbody=t.finalbody)
+            ast.copy_location(rest, t)
+            ast.fix_missing_locations(rest)
+            sub.exec_stmt(rest)
+            sub.exec_block(self.post)
+            return False
+        sub.env["__cm_exc__"] = Marker("excinst", exc.name, ())
+        rz = ast.Raise(exc=ast.Name(id="__cm_exc__", ctx=ast.Load()), cause=None)
+        again = ast.Try(body=[rz], handlers=t.handlers, orelse=[], finalbody=t.finalbody)
+        ast.copy_location(again, t)
+        ast.fix_missing_locations(again)
+        sub.exec_stmt(again)            # re-raises when no handler matches (or a handler re-raises): propagates out of the with statement
+        sub.exec_block(self.post)
+        return True                     # a handler dealt with it: the generator ended normally, so the exception is swallowed
 
 
 class _Suppress:
@@ -315,7 +403,7 @@ class ModelEval(Evaluator):
                         return astype
                     raise Unsupported("the model %s of an ndarray does not provide .%s" % (type(base).__name__, a))
                 raise Raised("AttributeError", node, "%s has no attribute %s" % (type(base).__name__, a))
-        if isinstance(base, (dict, list, tuple, str, set, frozenset)):
+        if isinstance(base, (dict, list, tuple, str, set, frozenset, _collections.deque)):
             if a.startswith("__") and a not in ("__len__", "__iter__", "__getitem__", "__setitem__", "__delitem__", "__contains__"):
                 raise Unsupported("attribute %s of a builtin container" % a)
             try:
@@ -683,6 +771,24 @@ class ModelEval(Evaluator):
                         return Marker("type", _collections.namedtuple(args[0], args[1], **{k_: v_ for k_, v_ in kwargs.items() if k_ in ("defaults", "rename")}))
                     except (TypeError, ValueError) as e:
                         raise Raised(type(e).__name__, node, str(e))
+                if h is None and func.data[0] in ("collections.defaultdict", "collections.OrderedDict", "collections.Counter", "collections.deque", "collections.ChainMap"):
+                    import collections as _c
+                    nm = func.data[0].split(".")[1]
+                    try:
+                        if nm == "defaultdict":
+                            fac = args[0] if args else None
+                            dd = _c.defaultdict((lambda: self.call(node, fac, [], {})) if fac is not None else None)
+                            for extra_ in args[1:]:
+                                dd.update(extra_)
+                            dd.update(kwargs)
+                            return dd
+                        if nm == "Counter":
+                            return _c.Counter(*[self.iterate(a_, node) if not isinstance(a_, dict) else a_ for a_ in args], **kwargs)
+                        if nm == "deque":
+                            return _c.deque(*([self.iterate(args[0], node)] + list(args[1:]) if args else []), **kwargs)
+                        return getattr(_c, nm)(*args, **kwargs)
+                    except TypeError as e:
+                        raise Raised("TypeError", node, str(e))
                 if h is None and func.data[0].startswith("itertools."):
                     import itertools as _it
                     nm = func.data[0][len("itertools."):]
@@ -1024,9 +1130,50 @@ class ModelEval(Evaluator):
                 return (callee.qual, tuple(k(x) for x in args), tuple(sorted((n_, k(v)) for n_, v in kwargs.items())))
         return None
 
+    def _singledispatch_target(self, callee, first, node):
+        """functools.singledispatch: the implementation registered for the class of the first argument (module-level functions decorated
+        with `<generic>.register(<class>)` or `<generic>.register` plus an annotation), the generic function itself otherwise"""
+        if not any(self.tree.dotted(callee.module, d.func if isinstance(d, ast.Call) else d) == "functools.singledispatch" for d in callee.node.decorator_list):
+            return None
+        table = getattr(callee, "_sa_dispatch", None)
+        if table is None:
+            table = []
+            for st in callee.module.tree.body:
+                if not isinstance(st, ast.FunctionDef):
+                    continue
+                for d in st.decorator_list:
+                    reg = d.func if isinstance(d, ast.Call) else d
+                    if isinstance(reg, ast.Attribute) and reg.attr == "register" and isinstance(reg.value, ast.Name) and reg.value.id == callee.name:
+                        if isinstance(d, ast.Call) and d.args:
+                            cls_expr = d.args[0]
+                        elif st.args.args and st.args.args[0].annotation is not None:
+                            cls_expr = st.args.args[0].annotation
+                        else:
+                            raise Unsupported("singledispatch registration of %s without a class" % callee.qual)
+                        table.append((cls_expr, FuncInfo(callee.module, None, st)))
+            callee._sa_dispatch = table
+        ctx = ModelEval(self.tree, _ModuleCtx(callee.module), {}, self.hooks, self.depth + 1, self.shared)
+        hits = [fi for cls_expr, fi in table if self.isinstance_(first, ctx.ev(cls_expr))]
+        if len(hits) > 1:
+            raise Unsupported("singledispatch %s: several registered classes match %r" % (callee.qual, first))
+        return hits[0] if hits else callee
+
+    def _is_contextmanager(self, callee):
+        for d in callee.node.decorator_list:
+            f = d.func if isinstance(d, ast.Call) else d
+            if self.tree.dotted(callee.module, f) in ("contextlib.contextmanager",):
+                return True
+        return False
+
     def invoke(self, callee, args, kwargs, node):
         if self.depth >= self.MAX_DEPTH:
             raise Unsupported("interpretation depth exceeded at %s" % callee.qual)
+        if callee.node.decorator_list and self._is_contextmanager(callee) and not getattr(self, "_raw_generator", False):
+            return _GenCM(self, callee, list(args), dict(kwargs), node)
+        if callee.node.decorator_list and callee.cls is None and args:
+            impl = self._singledispatch_target(callee, args[0], node)
+            if impl is not None and impl is not callee:
+                return self.invoke(impl, args, kwargs, node)
         self.shared["functions"].add(callee.qual)
         mk = self.memo_key(callee, args, kwargs) if callee.node.decorator_list else None
         if mk is not None:
@@ -1261,6 +1408,8 @@ class ModelEval(Evaluator):
         return super().exec_stmt(st)
 
     def _cm_enter(self, cm, node):
+        if isinstance(cm, _GenCM):
+            return cm.enter()
         if isinstance(cm, _Suppress):
             return cm.enter_result
         if isinstance(cm, PyObj):
@@ -1273,6 +1422,8 @@ class ModelEval(Evaluator):
         return cm
 
     def _cm_exit(self, cm, exc, node):
+        if isinstance(cm, _GenCM):
+            return cm.exit(exc)
         if isinstance(cm, _Suppress):
             return exc is not None and exc_matches(exc.name, cm.names)
         if isinstance(cm, PyObj):
